@@ -40,6 +40,10 @@ TEMPLATES = [
     "a(i,j) = b(i,j) - (c(i,j) - d(i,j))",
     "a(i) = b(i) * b(i)",
     "a(i,j) = b(i,j) * b(j,i)",
+    "a(i,k) = b(i,j) * b(k,j)",
+    "a(i,k) = b(i,j) * b(k,l)",
+    "a(i) = b(i,j) * b(i,k)",
+    "a(i,j) = b(i,j) + b(j,i)",
     # literals
     "a(i) = 2 * b(i)",
     "a(i) = b(i) * 2.5",
@@ -72,6 +76,12 @@ TEMPLATES = [
     "a() = c(k) + d(k) + b()",
     "a(i) = b(i) + c(i,j) * d(j)",
     "a(i,j) = b(i,k) * c(k,j) + d(i,j)",
+    # parenthesised sums on the right of a sum / product
+    "a() = b() + (c(k) + d(l))",
+    "a(i,j) = b(i,j) + (c(i) * d(k) + e(j) * d(k))",
+    "a(i) = b(i) - (c(i) - d(i) * e(i))",
+    "a(i) = b(i) + c(i) + d(i)",
+    "a(i,j) = b(i,j) + c(i,j) + d(i,j) + e(i,j)",
 ]
 
 
